@@ -1387,6 +1387,9 @@ func (t *Topic) subscriptionReply(asChan bool, msg *ClientComMessage) error {
 		if acs, err := types.ParseAcs([]byte(modeChanged.Mode)); err == nil {
 			hasJoined = acs.IsJoiner()
 		}
+	} else if pud := t.perUser[asUid]; !asChan && !(pud.modeWant & pud.modeGiven).IsJoiner() {
+		// Access mode is unchanged: the user is still banned or self-banned, do not attach the session.
+		hasJoined = false
 	}
 
 	if hasJoined {
